@@ -11,13 +11,14 @@ import (
 func init() {
 	Registry["C43"] = RuleDef{Module: "rueidishook", Run: runC43,
 		Technique:   "sibling-shape comparison of the delegating wrappers and a taint rule (inner client must not escape unwrapped) on go/ssa",
-		Explanation: "Decides for rueidishook (R43a) that every request method the Hook interface lists (Do, DoMulti, DoCache, DoMultiCache, Receive, DoStream, DoMultiStream) on hookclient and on the dedicated wrapper calls the same-named Hook method exactly once on every path, passes the inner client and every parameter unchanged in order, returns the hook's result unchanged, and never calls a request method of the inner client directly; (R43b) in Dedicated, Dedicate and Nodes no client obtained from the inner client reaches the caller (callback argument, return value, map value) unless wrapped in a hookclient/dedicated value; (R43c) every wrapper value constructed carries the hook of its parent (or WithHook's argument).",
+		Explanation: "Decides for rueidishook (R43a) that every request method the Hook interface lists (Do, DoMulti, DoCache, DoMultiCache, Receive, DoStream, DoMultiStream) on hookclient and on the dedicated wrapper calls the same-named Hook method exactly once on every path, passes the inner client and every parameter unchanged in order, returns the hook's result unchanged, and never calls a request method of the inner client directly; (R43b) in Dedicated, Dedicate and Nodes no client obtained from the inner client reaches the caller (callback argument, return value, map value) unless wrapped in a hookclient/dedicated value; (R43c) every wrapper value constructed carries the hook of its parent (or WithHook's argument). (R43d) every core client's Nodes() returns a map built for that call, which is what allows the hook wrapper to rewrite it in place.",
 		NotDecided:  "what the user's Hook implementation does; clients reachable through other packages."}
 }
 
 const hookPkg = "rueidis/rueidishook"
 
 func runC43(r *Report) {
+	freshNodesMapRule(r)
 	p := r.P
 	pk := p.Pkg(hookPkg)
 	if !r.Anchor("R43", "package "+hookPkg, pk != nil) {
@@ -370,4 +371,39 @@ func mapFullyRewrapped(fn *ssa.Function, m ssa.Value) bool {
 		}
 	}
 	return false
+}
+
+// freshNodesMapRule (R43d): hookclient.Nodes() wraps the node clients by rewriting, in place, the
+// map it got from the underlying client. That is only sound if every core client's Nodes() hands
+// out a map built for that call; a cached map would be wrapped again on every call (the hook runs
+// n times) and would leak hooked clients to users of the unhooked client.
+func freshNodesMapRule(r *Report) {
+	n := 0
+	for _, t := range []string{"singleClient", "sentinelClient", "clusterClient", "standalone"} {
+		fn := r.P.Fn("rueidis.(*" + t + ").Nodes")
+		if fn == nil || fn.Blocks == nil {
+			continue
+		}
+		n++
+		ok := true
+		for _, b := range fn.Blocks {
+			ret, isr := b.Instrs[len(b.Instrs)-1].(*ssa.Return)
+			if !isr {
+				continue
+			}
+			v := RetVals(ret)[0]
+			fresh := func(x ssa.Value) bool { _, is := Strip(x).(*ssa.MakeMap); return is }
+			if ph, isphi := v.(*ssa.Phi); isphi {
+				for _, e := range ph.Edges {
+					if !fresh(e) {
+						ok = false
+					}
+				}
+			} else if !fresh(v) {
+				ok = false
+			}
+		}
+		r.Ob("R43d", fn, "nodes-map-built-per-call", fn.Pos(), ok, "Nodes() returns a map made in this call (the hook wrapper rewrites the map it receives)")
+	}
+	r.Anchor("R43d", "core Nodes() implementations (>= 3)", n >= 3)
 }
